@@ -9,7 +9,7 @@
 
     New in this universe: the run can raise.  The guard [guard] therefore also keeps the inputs out of the raising
     corners, each as narrowly as the place where the atom stands requires:
-      a leaf                      no date / timedelta under truncate_datetime        ([leaf_ok], C11-TRUNC-DATE)
+      a leaf                      nothing (since 1c8f0f8, C11-TRUNC-DATE fixed: related leaves never raise, [leafR_altL])
       items of an all-basic list  [quiet] (YProofsSafe) unless the comparison is positional (zip): difflib may pair
       in the default mode         ANY two items of the two lists, related or not
       set members                 no nan with 0 digits, no timedelta when a precision is in force ([member_ok])
@@ -61,7 +61,7 @@ Definition items_ok (xs : list value) : bool :=
    for Python and after cleaning, cleanable), and no comparison raises *)
 Fixpoint guard (v : value) : bool :=
   match v with
-  | VAtom a => leaf_ok F a
+  | VAtom _ => true
   | VSet xs | VFrozen xs => forallb member_ok xs
   | VList xs | VTuple xs => forallb guard xs && items_ok xs
   | VDict kvs =>
@@ -83,13 +83,8 @@ Proof.
   apply andb_true_iff in H. destruct H as [H1 H2]. rewrite forallb_forall in H2. auto.
 Qed.
 
-(* a safe value (YProofsSafe: every atom quiet) without dicts satisfies the guard: the guard is weaker than [safe]
+(* a set member that is safe in the sense of YProofsSafe satisfies the member guard: the guard is weaker than [safe]
    wherever no dict key set is involved *)
-Lemma quiet_leaf_ok : forall a, quiet F a = true -> leaf_ok F a = true.
-Proof.
-  intros a H. destruct a; try reflexivity; cbn [quiet leaf_ok] in *; unfold has_trunc in H;
-    destruct (o_trunc F); try reflexivity; discriminate.
-Qed.
 Lemma member_quiet_ok : forall a, member_quiet F a = true -> member_ok a = true.
 Proof.
   intros a H. unfold member_quiet in H. apply andb_true_iff in H. destruct H as [H1 H2].
@@ -201,7 +196,7 @@ Proof.
   induction t1 as [a|xs IH|xs IH|kvs IH|xs|xs] using value_ind'; intros t2 p1 p2 Halt Hg1 Hg2.
   - (* atom *)
     inversion Halt as [a' b Hl|v w Hex| | | | |]; subst.
-    + cbn [diffF]. cbn [guard] in Hg1. rewrite (leafR_altL udiff F a b p1 p2 Hl Hg1). reflexivity.
+    + cbn [diffF]. rewrite (leafR_altL udiff F a b p1 p2 Hl). reflexivity.
     + destruct t2 as [b| | | | |]; cbn [diffF]; try (rewrite Hex; reflexivity).
       cbn [type_of] in Hex. rewrite (leafR_excl udiff F a b p1 p2 Hex). reflexivity.
   - (* list *)
